@@ -58,6 +58,8 @@ class OrderMonitor:
     def __call__(self, ctx, res):
         if ctx.level != self.level:
             return
+        if ctx.view.completed:
+            return      # a completed running order refuses every message: that is C07's business
         e = ctx.exp
         case = ctx.case
         kind = case['kind']
@@ -141,7 +143,7 @@ def _pos_sig(seq, s, named):
 
 
 def mon_nothing_skipped(ctx, res):
-    if ctx.level not in ('story', 'item'):
+    if ctx.level not in ('story', 'item') or ctx.view.completed:
         return
     e = ctx.exp
     case = ctx.case
@@ -919,6 +921,29 @@ def _call(fn):
         return None, e
 
 
+def _accessor_summary(ro):
+    """Every accessor value of a running order as plain data (exceptions as strings)."""
+    def g(fn):
+        try:
+            v = fn()
+        except Exception as e:  # noqa
+            return 'EXC:' + type(e).__name__
+        if isinstance(v, list):
+            return tuple(x if isinstance(x, (str, int, float, type(None))) else ('item', getattr(x, 'id', None)) for x in v)
+        return v
+    out = [('ro.' + n, g(lambda n=n: getattr(ro, n))) for n in ('ro_slug', 'start_time', 'end_time', 'duration', 'completed', 'script',
+                                                                 'body', 'message_id', 'ro_id')]
+    try:
+        stories = ro.stories
+    except Exception as e:  # noqa
+        return out + [('ro.stories', 'EXC:' + type(e).__name__)]
+    for k, s in enumerate(stories):
+        for n in ('id', 'slug', 'duration', 'offset', 'start_time', 'end_time', 'script', 'body'):
+            out.append((f'story[{k}].{n}', g(lambda n=n: getattr(s, n))))
+        out.append((f'story[{k}].items', g(lambda: [(i.id, i.slug, i.type, i.object_id, i.mos_id, i.note) for i in s.items])))
+    return out
+
+
 class Accessors(StateMonitor):
     """C15: read accessors never raise and agree with the XML."""
 
@@ -929,7 +954,18 @@ class Accessors(StateMonitor):
         if ro is None:
             ro, e = target.parse(ns, text)
         else:
+            # the live object (whose accessors were all read once before the merge) must answer every
+            # accessor exactly like a fresh read of its own serialisation: the values are a function of
+            # the document, not of what was looked at earlier
             res.extra['live_objects_checked'] += 1
+            fresh, e2 = target.parse(ns, text)
+            if fresh is not None:
+                a, b = _accessor_summary(ro), _accessor_summary(fresh)
+                if a != b:
+                    diff = [(x[0], x[1], y[1]) for x, y in zip(a, b) if x != y][:3] or [('length', len(a), len(b))]
+                    yield (f'LIVE-vs-reread:{diff[0][0].split("[")[0].split(".")[0]}.{diff[0][0].split(".")[-1]}',
+                           f'accessors of the live object disagree with a fresh read of its own serialisation: '
+                           + '; '.join(f'{n}: live {x!r} vs re-read {y!r}' for n, x, y in diff))
         if ro is None:
             yield ('STATE:unreadable', f'state does not parse: {e}')
             return
@@ -1149,3 +1185,53 @@ class ScriptBody(StateMonitor):
                 yield ('RunningOrder.body:value', f'ro.body {got!r}, concatenation of the stories {all_body!r}')
         if all_script:
             res.extra['states_with_script'] += 1
+
+
+# ================================================================ live two-step histories
+class LiveSecondStep:
+    """Runs the wrapped monitors on the SECOND message of two-message histories executed on one live
+    object (no re-read in between): state s --c1--> live object --c2--> checked.  The text-state graph
+    re-reads the serialisation before every step; this wrapper covers what only shows on an object
+    that has already been through a merge (stale caches, shared elements)."""
+
+    def __init__(self, inner, second_harness, first_per_kind=2):
+        self.inner = inner
+        self.second = second_harness
+        self.first_per_kind = first_per_kind
+        self._count = Counter()
+        self.touch_before = any(getattr(m, 'touch_before', False) for m in inner)
+
+    def __call__(self, ctx, res):
+        from . import target
+        from .explore import Ctx
+        obs = ctx.obs
+        kind = ctx.case['kind']
+        if obs.exc is not None or obs.after is None or obs.after == ctx.before:
+            return
+        key = (hash(ctx.before), kind)
+        if self._count[key] >= self.first_per_kind:
+            return
+        self._count[key] += 1
+        av = ctx.after_view
+        if av is None or av.base is None:
+            return
+        ns = ctx.ns
+        for c2 in self.second.menu(av, _NullRes()):
+            m2 = self.second.render(c2, av)
+            live, _ = target.parse(ns, ctx.before)
+            m1, _ = target.parse(ns, ctx.msg)
+            o1 = target.step_live(ns, live, m1)
+            if o1.after != obs.after:
+                yield (f'after-{kind}>nondeterministic', f'{_case_str(ctx.case)}: re-execution gave a different result')
+                return
+            mobj2, e = target.parse(ns, m2)
+            if mobj2 is None:
+                continue
+            o2 = target.step_live(ns, live, mobj2)
+            ctx2 = Ctx(ns, self.second, obs.after, av, c2, m2, o2)
+            ctx2.ro_obj, ctx2.msg_obj = live, mobj2
+            res.extra['live_second_steps'] += 1
+            for mon in self.inner:
+                for sig, detail in mon(ctx2, res):
+                    yield (f'after-{kind}>{sig}', f'on the live object that just merged {_case_str(ctx.case)}: {detail}')
+                    return
